@@ -5,6 +5,7 @@ package simkit
 // SplitMix64 is the only PRNG of the framework.
 type SplitMix64 struct{ s uint64 }
 
+//go:norace
 func (r *SplitMix64) Next() uint64 {
 	r.s += 0x9e3779b97f4a7c15
 	z := r.s
@@ -45,6 +46,7 @@ func ReplayTape(seed uint64, vals []uint32) *Tape {
 	return &Tape{Seed: seed, replay: vals, replayOn: true}
 }
 
+//go:norace
 func (t *Tape) raw() uint32 {
 	var v uint32
 	if t.replayOn {
@@ -59,6 +61,7 @@ func (t *Tape) raw() uint32 {
 }
 
 // Draw returns a value in [0,n). n<=1 consumes nothing.
+//go:norace
 func (t *Tape) Draw(n int) int {
 	if n <= 1 {
 		return 0
@@ -69,6 +72,7 @@ func (t *Tape) Draw(n int) int {
 }
 
 // Range returns a value in [lo,hi].
+//go:norace
 func (t *Tape) Range(lo, hi int) int {
 	if hi <= lo {
 		return lo
@@ -78,6 +82,7 @@ func (t *Tape) Range(lo, hi int) int {
 
 // Bool is true with probability num/den. 0 on the tape means false, so that
 // shrinking turns features and faults off.
+//go:norace
 func (t *Tape) Bool(num, den int) bool {
 	if num <= 0 {
 		return false
@@ -90,6 +95,7 @@ func (t *Tape) Bool(num, den int) bool {
 
 // Pick returns an index with the given relative weights; index 0 is the
 // simplest choice.
+//go:norace
 func (t *Tape) Pick(weights ...int) int {
 	total := 0
 	for _, w := range weights {
@@ -109,6 +115,7 @@ func (t *Tape) Pick(weights ...int) int {
 }
 
 // Geo draws a small non-negative integer, biased to small values, <= max.
+//go:norace
 func (t *Tape) Geo(max int) int {
 	n := 0
 	for n < max && t.Bool(1, 2) {
